@@ -523,14 +523,17 @@ theorem cinv_step {s s' : CState} {l : Label} (h : CInv s) (hs : cstep s l = som
         rw [hcond.1] at this; cases this
       · intro _; exact ⟨rfl, rfl⟩
     · cases hs
-  | stopCall =>
-    simp only [cstep] at hs
-    cases hs
-    exact ⟨h.sub, h.stampRef, h.stampSeen, h.startedEmpty, h.now0, h.seenExpired, h.explained, h.bgCl, h.closed⟩
-  | stopReturn =>
+  | stopCall caller =>
     simp only [cstep] at hs
     split at hs
-    · cases hs; exact h
+    · cases hs
+    · cases hs
+      exact ⟨h.sub, h.stampRef, h.stampSeen, h.startedEmpty, h.now0, h.seenExpired, h.explained, h.bgCl, h.closed⟩
+  | stopReturn caller =>
+    simp only [cstep] at hs
+    split at hs
+    · cases hs
+      exact ⟨h.sub, h.stampRef, h.stampSeen, h.startedEmpty, h.now0, h.seenExpired, h.explained, h.bgCl, h.closed⟩
     · cases hs
 
 theorem cinv_reach {maxTTL t0 period : Int} {s : CState} (h : Reach maxTTL t0 period s) : CInv s := by
